@@ -957,7 +957,7 @@ pub fn one_run(w: &Work, seed: u64, idx: u64, stats: &mut Stats) -> Option<u64> 
     });
     match check_zone(&case, &z, &instants, &nanos, &knobs, &mut Some(stats)) {
         Ok(h) => {
-            if stats.samples.len() < 4 && idx % 211 == 0 {
+            if idx % 211 == 0 && idx < 211 * 4 {
                 stats.samples.push((
                     idx,
                     Json::obj()
